@@ -313,6 +313,9 @@ func (r *binaryReader) StepOut() error {
 	}
 
 	if err := r.bits.StepOut(); err != nil {
+		// The stream is unusable from here on; remember that, or a second StepOut finds
+		// the bitstream's container stack already popped.
+		r.err = err
 		return err
 	}
 
